@@ -58,6 +58,7 @@ inductive Obs where
   | ms (r : Option (List MRow × List String))
   | enc (r : Option (List (TParam × Rat) × List String))
   | tm (r : Option (List (Rat × Rat)))
+  deriving DecidableEq, Repr
 
 /-- `to_matched_score`: rows and `snote_ids` -/
 def matchedWithIds (ss : List SRow) (ps : List PRow) (al : List ARow) : Option (List MRow × List String) :=
